@@ -42,9 +42,9 @@ CLAIMED = {
             "Schedule dimension is small (queries run one at a time; C10 covers concurrency): the simulator contributes the clock, the history (chunking, compaction, cache temperature) and the model; predicate shapes are seeded generation. Single-partition plans only.",
             "DESIGN.md section 3 C04"),
     "C10": ("query", "exploration",
-            "deterministic simulation: seeded interleaving of 2..4 concurrent QueryNode::query calls at every store request and at the pause point between table registration and planning; each answer compared with the reference evaluation of the same SQL",
-            "One real QueryNode over chunks in distinct eras so that different windows select different chunk sets; concurrent tasks issue projections / aggregates / GROUP BY over one, several or no eras; every concurrent answer must equal the same SQL on a MemTable of all rows (= the statement run alone). Added during the build: a third of the runs also have queries whose client goes away (future dropped at a seeded await point, e.g. between binding the table and planning). Later: streaming subscriptions' historical phase among the concurrent calls, label predicates in half of the statements with label values that differ only in letter case or white space (a third of such statements the twin of another one), queries on behalf of two tenants.",
-            "The service's multi-thread runtime is replaced by interleaving at await points (store requests + one named pause point): the logical re-binding race is reachable, hardware-level races inside DataFusion are not.",
+            "deterministic simulation: seeded interleaving of 2..4 concurrent QueryNode::query calls at every store request, at the pause point between table registration and planning and at a pause point in front of every statement planning; each answer compared with the reference evaluation of the same SQL",
+            "One real QueryNode over chunks in distinct eras so that different windows select different chunk sets; concurrent tasks issue projections / aggregates / GROUP BY over one, several or no eras; every concurrent answer must equal the same SQL on a MemTable of all rows (= the statement run alone). Added during the build: a third of the runs also have queries whose client goes away (future dropped at a seeded await point, e.g. between binding the table and planning). Later: streaming subscriptions' historical phase among the concurrent calls, label predicates in half of the statements with label values that differ only in letter case or white space (a third of such statements the twin of another one), queries on behalf of two tenants. Eighth mutant round: every call of plan_read_only is a scheduling point (second named pause point, opted into by this scenario only), so a planning step that runs outside the registration lock can be overtaken by another request's re-binding.",
+            "The service's multi-thread runtime is replaced by interleaving at await points (store requests + two named pause points): the logical re-binding race is reachable, hardware-level races inside DataFusion are not.",
             "DESIGN.md section 3 C10"),
     "C19": ("cluster", "exploration",
             "deterministic simulation: seeded membership/health/load histories on the virtual clock (real health-check task), route_write under a poll budget; eligibility, termination and assignment-stability oracles",
@@ -63,7 +63,7 @@ CLAIMED = {
             "DESIGN.md section 3 C20"),
     "C09": ("compaction", "exploration",
             "deterministic simulation: real Compactor loop + real QueryNode sharing a pin registry, request-level interleaving of GC with queries, compactor crash/restart, wall-clock jumps, virtual hours; every DELETE checked at its effect instant against catalog history, grace, pins and retention cut-off",
-            "Store request log as monitor: each physical delete of a data file must concern a file unreferenced by every catalog version current during [t-grace, t], not pinned at the effect instant, and previously listed; each retention removal (catalog transition dropping chunks without a replacement) must concern a chunk whose newest row is older than now-retention-30 s; deletions persisted when the compactor died must be carried out after restart (bounded liveness, not judged after an injected backward clock jump, which legitimately postpones GC).",
+            "Store request log as monitor: each physical delete of a data file must concern a file unreferenced by every catalog version current during [t-grace, t], not pinned at the effect instant, and previously listed; each retention removal (catalog transition dropping chunks without a replacement) must concern a chunk whose newest row is older than now-retention-30 s; deletions persisted when the compactor died must be carried out after restart (bounded liveness, not judged after an injected backward clock jump, which legitimately postpones GC). The dataset has chunks entirely older than, entirely newer than, straddling and about to cross the cut-off, and (eighth mutant round) one whose newest row is a drawn 1..170 minutes inside the window at the start, so that the cut-off passes it in some runs and stops just short of it in others.",
             "Compactor and query node share a process; object-store catalog backend; only backward clock jumps are injected (BoundedClock claims to mask those).",
             "DESIGN.md section 3 C09"),
     "C05": ("ingest", "fault_enumeration",
